@@ -102,4 +102,8 @@ structure Inv2 (s : St) : Prop where
 theorem inv2_init (cap : Nat) : Inv2 (init true cap) := by
   constructor <;> simp [init, Pc.inCS, Pc.wakingOf, Pc.waitOp, Pc.listedOp, headW, ChainW, Pc.awakeR, Pc.awakeS, Pc.isWaker]
 
+/-- closes one conjunct of `Inv2 s'` for an explicit successor record -/
+macro "m2_close" : tactic =>
+  `(tactic| (intros; (try simp only [upd, b2n] at *); first | done | grind (splits := 14) (ematch := 8) (instances := 4000) [Pc.inCS, Pc.wakingOf, Pc.waitOp, Pc.listedOp, Pc.awakeR, Pc.awakeS, Pc.isWaker, Op.isRecv, Op.isSend, headW, ChainW, mem_addFiber, waitOp_inCS, wakingOf_inCS, isWaker_inCS, headW_mem, headW_cons, listedOp_cases, Op.isRecv_false, Op.isSend_false, List.mem_erase_of_ne, List.Nodup.erase, List.length_erase_of_mem, List.Nodup.mem_erase_iff]))
+
 end LibfiberVerif.MultiChan
